@@ -1,7 +1,5 @@
 package redisemu
 
-import "strings"
-
 func redisGlob(pattern, candidate []rune) bool {
 
 	if pattern == nil {
@@ -32,8 +30,13 @@ func redisGlob(pattern, candidate []rune) bool {
 
 			return false
 		} else if patCh == '[' {
-			var patSet strings.Builder
+			// a character class: literal characters, ranges a-z, negation with a leading ^
 			patPos++
+			negate := patPos < len(pattern) && pattern[patPos] == '^'
+			if negate {
+				patPos++
+			}
+			match := false
 			for patPos < len(pattern) {
 				letter := pattern[patPos]
 				if letter == ']' {
@@ -42,11 +45,27 @@ func redisGlob(pattern, candidate []rune) bool {
 				}
 				if letter == '\\' && patPos+1 < len(pattern) {
 					patPos++
+					if pattern[patPos] == candidate[i] {
+						match = true
+					}
+				} else if patPos+2 < len(pattern) && pattern[patPos+1] == '-' {
+					lo, hi := letter, pattern[patPos+2]
+					if lo > hi {
+						lo, hi = hi, lo
+					}
+					patPos += 2
+					if candidate[i] >= lo && candidate[i] <= hi {
+						match = true
+					}
+				} else if letter == candidate[i] {
+					match = true
 				}
-				patSet.WriteRune(pattern[patPos])
 				patPos++
 			}
-			if !strings.ContainsRune(patSet.String(), candidate[i]) {
+			if negate {
+				match = !match
+			}
+			if !match {
 				return false
 			}
 		} else if patCh == '\\' && patPos+1 < len(pattern) {
